@@ -100,22 +100,33 @@ def impl_dt(coeff):
 
 
 def build_inter(case):
+    """returns (coefficient, input arrays handed to the constructor)"""
     from qutip.core.cy.coefficient import InterCoefficient
     g = np.array(case["grid"], dtype=np.float64)
     if case["kind"] == "poly":
         poly = np.array([[complex(*z) for z in row] for row in case["poly"]],
                         dtype=np.complex128)
-        return InterCoefficient.restore(g, poly)
+        return InterCoefficient.restore(g, poly), None
     c = np.array([complex(*z) for z in case["vals"]], dtype=np.complex128)
-    return InterCoefficient(c, g, case["order"], None)
+    # both inputs already have the target dtype and are C-contiguous: the
+    # situation in which a non-copying conversion would keep a view
+    return InterCoefficient(c, g, case["order"], None), (c, g)
+
+
+def shares_inputs(co, inputs):
+    """does the coefficient keep memory of the caller's buffers?"""
+    kept = co.__reduce__()[1][:2]
+    return any(np.shares_memory(k, a) for k in kept for a in inputs)
 
 
 def run_impl_inter(case):
     with np.errstate(all="ignore"):
-        co = build_inter(case)
+        co, inputs = build_inter(case)
     res = impl_eval(co, case["ts"])
     nz = impl_dt(co) != 0.0
     extra = {}
+    if inputs is not None:
+        extra["shares"] = shares_inputs(co, inputs)
     if case.get("copy"):
         cp = pickle.loads(pickle.dumps(co))
         extra["pickle"] = (impl_dt(cp) != 0.0, impl_eval(cp, case["ts"]))
@@ -881,6 +892,344 @@ def run_spline_validation(ctx, rng, n):
     return cnt
 
 
+# ------------------------------------------------------ construction isolation
+# A Coefficient is immutable: whatever the caller later does IN PLACE to the
+# objects it was built from (sample array, tlist, args dict, PPoly arrays ...)
+# the coefficient - and every copy / pickle / replace_arguments result made
+# from it, before or after - must keep returning the ORIGINAL values.
+VAL_FORMS = ["c128", "c128_strided", "c128_fortran_col", "c128_readonly", "c64",
+             "f64", "f64_strided", "int64", "list"]
+T_FORMS = ["f64", "f64_strided", "f64_readonly", "f32", "int64", "list"]
+
+
+def make_input(values, form):
+    """values: list of python numbers.  Returns (object handed to qutip,
+    mutate() that edits the underlying storage in place)"""
+    if form == "list":
+        obj = list(values)
+
+        def mut():
+            for k in range(len(obj)):
+                obj[k] = obj[k] * 3 + 1
+        return obj, mut
+    dt = {"c128": np.complex128, "c64": np.complex64, "f64": np.float64,
+          "f32": np.float32, "int64": np.int64}[form.split("_")[0]]
+    if form.endswith("_strided"):
+        base = np.zeros((len(values), 3), dtype=dt)
+        base[:, 1] = values
+        obj = base[:, 1]
+    elif form.endswith("_fortran_col"):
+        base = np.zeros((len(values), 3), dtype=dt, order="F")
+        base[:, 1] = values
+        obj = base[:, 1]
+    elif form.endswith("_readonly"):
+        base = np.array(values, dtype=dt)
+        obj = base.view()
+        obj.flags.writeable = False
+    else:
+        base = np.array(values, dtype=dt)
+        obj = base
+
+    def mut():
+        base[...] = base * 3 + 1
+    return obj, mut
+
+
+def gen_iso_array_case(rng):
+    n = rng.randint(2, 9)
+    valkind = rng.choice(["complex", "real", "int"])
+    tkind = rng.choice(["int", "dyadic", "float"])
+    vforms = {"complex": ["c128", "c128_strided", "c128_fortran_col", "c128_readonly",
+                          "c64", "list"],
+              "real": ["f64", "f64_strided", "c128", "list", "c128_strided"],
+              "int": ["int64", "f64", "c128", "list", "c128_readonly"]}[valkind]
+    tforms = {"int": ["int64", "f64", "list", "f32", "f64_readonly"],
+              "dyadic": ["f64", "f64_strided", "f64_readonly", "f32", "list"],
+              "float": ["f64", "f64_strided", "f64_readonly", "list"]}[tkind]
+    if tkind == "int":
+        g = [0]
+        for _ in range(n - 1):
+            g.append(g[-1] + rng.randint(1, 4))
+    elif tkind == "dyadic":
+        g = [rng.randint(-4, 4) / 8.0]
+        for _ in range(n - 1):
+            g.append(g[-1] + rng.choice([0.125, 0.25, 0.5, 1.0, 2.0]))
+    else:
+        g = [rng.uniform(-1, 1)]
+        for _ in range(n - 1):
+            g.append(g[-1] + rng.uniform(0.05, 1.0))
+    if valkind == "complex":
+        v = [complex(rng.randint(-8, 8) / 4.0, rng.randint(-8, 8) / 4.0) for _ in g]
+    elif valkind == "real":
+        v = [rng.randint(-16, 16) / 8.0 for _ in g]
+    else:
+        v = [rng.randint(-9, 9) for _ in g]
+    vform = rng.choice(vforms)
+    route = rng.choice(["InterCoefficient", "coefficient", "coefficient", "QobjEvo"])
+    if vform == "list":
+        route = "InterCoefficient"      # coefficient() / QobjEvo only take ndarrays
+    return {"route": route,
+            "order": rng.choice([0, 0, 0, 1, 1, 2, 3, 5]), "grid": g, "vals": v,
+            "vform": vform, "tform": rng.choice(tforms)}
+
+
+def _evals(obj, ts, qevo=False):
+    out = []
+    for t in ts:
+        if qevo:
+            out.append(tuple(complex(z) for z in obj(float(t)).full().ravel()))
+        else:
+            try:
+                out.append(complex(obj(float(t))))
+            except IndexError:
+                out.append("IndexError")
+    return out
+
+
+def _derived(co, qevo):
+    """copies of a coefficient that must stay frozen as well"""
+    if qevo:
+        return {"copy": co.copy(), "pickle": pickle.loads(pickle.dumps(co))}
+    return {"copy": co.copy(), "pickle": pickle.loads(pickle.dumps(co)),
+            "replace_arguments(unused)": co.replace_arguments(unused_name=1)}
+
+
+def iso_check(ctx, site, sig_prefix, what, case, build, mutators, ts, qevo=False,
+              must_equal=None):
+    """build() -> object; mutators: list of (name, fn).  Returns number of
+    violations reported."""
+    import warnings
+    with warnings.catch_warnings():
+        warnings.simplefilter("ignore")
+        with np.errstate(all="ignore"):
+            try:
+                co = build()
+                v0 = _evals(co, ts, qevo)
+                before = _derived(co, qevo)
+            except Exception as e:      # a valid input must be accepted
+                ctx.violation(site, "%s:construction-raises-%s" % (sig_prefix, type(e).__name__),
+                              "%s: construction / first evaluation raised %s: %s" % (
+                                  what, type(e).__name__, str(e)[:200]),
+                              {"kind": "isolation", "case": case})
+                return 1
+            nbad = 0
+            if must_equal is not None and v0[:len(must_equal)] != must_equal:
+                ctx.violation(site, sig_prefix + ":wrong-value-after-construction",
+                              "%s: values right after construction %r differ from the data %r"
+                              % (what, v0[:len(must_equal)], must_equal),
+                              {"kind": "isolation", "case": case})
+                return 1
+            for name, fn in mutators:
+                fn()
+                after = {"the coefficient": co}
+                after.update({"its %s (made before the edit)" % k: v for k, v in before.items()})
+                after.update({"its %s (made after the edit)" % k: v
+                              for k, v in _derived(co, qevo).items()})
+                for who, obj in after.items():
+                    v1 = _evals(obj, ts, qevo)
+                    if v1 != v0:
+                        k = next(j for j, (a, b) in enumerate(zip(v0, v1)) if a != b)
+                        ctx.violation(
+                            site, "%s:follows-in-place-edit-of-%s" % (
+                                sig_prefix, re.sub(r"[^A-Za-z0-9_.]+", "-", name).strip("-")),
+                            "%s: after the caller edited %s in place, %s returns %r at t=%r "
+                            "instead of the original %r" % (what, name, who, v1[k],
+                                                            float(ts[k]), v0[k]),
+                            {"kind": "isolation", "case": case, "edited": name, "who": who,
+                             "t": float(ts[k])})
+                        nbad += 1
+                        break
+                if nbad:
+                    break
+    return nbad
+
+
+def run_iso_array(ctx, case):
+    import qutip
+    from qutip.core.cy.coefficient import InterCoefficient
+    g = case["grid"]
+    v = [complex(*z) if isinstance(z, (list, tuple)) else z for z in case["vals"]]
+    vobj, vmut = make_input(v, case["vform"])
+    tobj, tmut = make_input(g, case["tform"])
+    order, route = case["order"], case["route"]
+    ts = list(g) + [a + (b - a) / 2 for a, b in zip(g[:-1], g[1:])] + [g[0] - 1, g[-1] + 1]
+    qevo = route == "QobjEvo"
+
+    def build():
+        if route == "InterCoefficient":
+            return InterCoefficient(vobj, tobj, order, None)
+        if route == "coefficient":
+            return qutip.coefficient(vobj, tlist=tobj, order=order)
+        return qutip.QobjEvo([qutip.sigmax(), vobj], tlist=tobj, order=order)
+    must = None
+    if order <= 1 and not qevo:
+        must = [complex(x) for x in v]        # every sample at its sample time
+    what = "%s(%s samples, %s tlist, order=%d)" % (route, case["vform"], case["tform"], order)
+    return iso_check(ctx, "coefficient.InterCoefficient.__init__", "array",
+                     what, case, build, [("coeff_arr", vmut), ("tlist", tmut)],
+                     ts, qevo, must)
+
+
+STR_CODES = ["w*t+a", "a*exp(1j*w*t)", "sin(w*t)*b+a", "w*w+b*t", "conj(a)*t+w"]
+
+
+def iso_f_py(t, w, a, b):
+    return w * t + a * b
+
+
+def iso_f_dict(t, args):
+    return args["w"] * t + args["a"] * args["b"]
+
+
+def iso_f_kw(t, **kw):
+    return kw["w"] * t + kw["a"] * kw["b"]
+
+
+def gen_iso_args_case(rng):
+    return {"kind": rng.choice(["str", "str", "func_pythonic", "func_dict", "func_kw"]),
+            "route": rng.choice(["coefficient", "class", "QobjEvo"]),
+            "code": rng.choice(STR_CODES),
+            "args": {"w": rng.randint(1, 5) / 2.0, "a": complex(rng.randint(-3, 3), rng.randint(-3, 3)),
+                     "b": rng.randint(-4, 4) / 4.0},
+            "replace": {rng.choice(["w", "a", "b"]): rng.randint(1, 9) / 2.0},
+            "extra_key": rng.random() < 0.3}
+
+
+def run_iso_args(ctx, case):
+    import qutip
+    from qutip.core.cy.coefficient import StrFunctionCoefficient, FunctionCoefficient
+    d = {k: (complex(*v) if isinstance(v, (list, tuple)) else v) for k, v in case["args"].items()}
+    if case["extra_key"]:
+        d["zz"] = 7
+    r = dict(case["replace"])
+    kind, route = case["kind"], case["route"]
+    base = {"str": case["code"], "func_pythonic": iso_f_py, "func_dict": iso_f_dict,
+            "func_kw": iso_f_kw}[kind]
+    qevo = route == "QobjEvo"
+
+    def build():
+        if qevo:
+            return qutip.QobjEvo([qutip.sigmax(), base], args=d)
+        if route == "class":
+            if kind == "str":
+                return StrFunctionCoefficient(base, d)
+            return FunctionCoefficient(base, d)
+        return qutip.coefficient(base, args=d)
+
+    def mut_args():
+        for k in list(d):
+            d[k] = d[k] * 2 + 1
+        d["w"] = 99.0
+
+    def mut_clear():
+        d.clear()
+        d.update({"w": -1.0, "a": -1.0, "b": -1.0})
+    ts = [0.0, 0.5, 1.0, -0.75]
+    what = "%s(%s, args=dict)" % ({"coefficient": "coefficient", "class": "Str/FunctionCoefficient",
+                                   "QobjEvo": "QobjEvo([op, .])"}[route],
+                                  repr(base) if kind == "str" else kind)
+    site = ("coefficient.StrFunctionCoefficient.__init__" if kind == "str"
+            else "coefficient.FunctionCoefficient.__init__")
+    nb = iso_check(ctx, site, "args-dict", what, case, build,
+                   [("args", mut_args), ("args", mut_clear)],
+                   ts, qevo)
+    if nb or qevo:
+        return nb
+    # the dictionary handed to replace_arguments
+    d2 = {k: (complex(*v) if isinstance(v, (list, tuple)) else v) for k, v in case["args"].items()}
+    if route == "coefficient":
+        co = qutip.coefficient(base, args=d2)
+    elif kind == "str":
+        co = StrFunctionCoefficient(base, d2)
+    else:
+        co = FunctionCoefficient(base, d2)
+
+    def build2():
+        return co.replace_arguments(r)
+
+    def mut_r():
+        for k in list(r):
+            r[k] = r[k] * 5 + 3
+    return iso_check(ctx, site.replace("__init__", "replace_arguments"), "replace-dict",
+                     what + ".replace_arguments(dict)", case, build2,
+                     [("_args", mut_r)], ts, False)
+
+
+def run_iso_ppoly(ctx, rng):
+    """coefficient(PPoly) / coefficient(BSpline): the scipy object's arrays"""
+    import qutip
+    from scipy.interpolate import PPoly, make_interp_spline
+    n = rng.randint(2, 6)
+    x = np.cumsum([rng.choice([0.25, 0.5, 1.0]) for _ in range(n + 1)])
+    k = rng.randint(0, 3)
+    cplx = rng.random() < 0.6
+    c = np.array([[rng.randint(-4, 4) for _ in range(n)] for _ in range(k + 1)],
+                 dtype=np.complex128 if cplx else np.float64)
+    case = {"x": [float(a) for a in x], "c_dtype": str(c.dtype), "order": k, "n": n}
+    pp = PPoly(c, x)
+    ts = list(x) + [a + (b - a) / 2 for a, b in zip(x[:-1], x[1:])]
+
+    def mc():
+        pp.c[...] = pp.c * 3 + 1
+
+    def mx():
+        pp.x[...] = pp.x * 3 + 1
+    nb = iso_check(ctx, "coefficient.InterCoefficient.from_PPoly", "ppoly",
+                   "coefficient(PPoly with %s coefficients, order %d)" % (c.dtype, k), case,
+                   lambda: qutip.coefficient(pp), [("ppoly.c", mc), ("ppoly.x", mx)], ts)
+    g = np.arange(8.0)
+    sp = make_interp_spline(g, np.array([rng.randint(-4, 4) for _ in g], dtype=float), k=3)
+
+    def ms():
+        sp.c[...] = sp.c * 3 + 1
+    nb += iso_check(ctx, "coefficient.InterCoefficient.from_Bspline", "bspline",
+                    "coefficient(BSpline)", {"bspline": "cubic on arange(8)"},
+                    lambda: qutip.coefficient(sp), [("spline.c", ms)],
+                    list(g) + [0.5, 3.25])
+    return nb
+
+
+def run_iso_nested(ctx, rng):
+    """exploration, NOT a violation: values inside args are kept by reference
+    (shallow copy of the dict), as documented Python semantics; recorded."""
+    import qutip
+
+    def h(t, w):
+        return w[0] * t
+    w = [2.0]
+    co = qutip.coefficient(h, args={"w": w})
+    v0 = co(1.0)
+    w[0] = 10.0
+    return co(1.0) != v0
+
+
+def run_isolation(ctx, rng, n):
+    dist = {"array_route": {}, "vform": {}, "tform": {}, "order": {}, "args_kind": {},
+            "args_route": {}, "ppoly": 0, "failures": 0}
+    for _ in range(n):
+        c = gen_iso_array_case(rng)
+        c["vals"] = [[z.real, z.imag] if isinstance(z, complex) else z for z in c["vals"]]
+        for k, key in (("array_route", "route"), ("vform", "vform"), ("tform", "tform"),
+                       ("order", "order")):
+            dist[k][str(c[key])] = dist[k].get(str(c[key]), 0) + 1
+        ctx.count_case(("iso-array", json.dumps(c, sort_keys=True)), nontrivial=True)
+        dist["failures"] += 1 if run_iso_array(ctx, c) else 0
+    for _ in range(n // 2):
+        c = gen_iso_args_case(rng)
+        c["args"] = {k: ([v.real, v.imag] if isinstance(v, complex) else v)
+                     for k, v in c["args"].items()}
+        dist["args_kind"][c["kind"]] = dist["args_kind"].get(c["kind"], 0) + 1
+        dist["args_route"][c["route"]] = dist["args_route"].get(c["route"], 0) + 1
+        ctx.count_case(("iso-args", json.dumps(c, sort_keys=True)), nontrivial=True)
+        dist["failures"] += 1 if run_iso_args(ctx, c) else 0
+    for _ in range(max(4, n // 10)):
+        dist["ppoly"] += 1
+        ctx.count_case(("iso-ppoly", dist["ppoly"], rng.random()), nontrivial=True)
+        dist["failures"] += 1 if run_iso_ppoly(ctx, rng) else 0
+    dist["nested_values_shared_by_reference(exploration)"] = bool(run_iso_nested(ctx, rng))
+    return dist
+
+
 # ---------------------------------------------------------------------- run
 WITNESSES = [
     # (name, grid, vals, order, t, expected sample index)
@@ -911,7 +1260,9 @@ def run(ctx):
         "..2^20), Gaussian-integer samples compared exactly with the rational instance; "
         "poly stream: restore() with integer piecewise polynomials of order 1-3; "
         "FunctionCoefficient case = (signature style, style option, args, sequence of "
-        "replace_arguments / call-time-argument operations). A case is non-trivial when the "
+        "replace_arguments / call-time-argument operations); isolation case = (construction "
+        "route: class / coefficient() / QobjEvo list form, input dtype and layout, order, "
+        "which input is then edited in place). A case is non-trivial when the "
         "grid has >= 3 points (Inter) or at least one operation (Function); distinct by "
         "full case content.")
     ctx.cov["trusted_base"] += [
@@ -990,6 +1341,7 @@ def run(ctx):
         if exact:
             extra_idx.append(i)
             exprs.append(model_expr(to_float_case(case), False))
+    exprs.append("(@init_shares_inputs, 0)")
     try:
         vals = vlib.coq_eval_values("cases_C06", HEADER, exprs, chunk=60)
     except (RuntimeError, ValueError) as e:
@@ -998,6 +1350,11 @@ def run(ctx):
         vals = None
 
     ctx.log("model evaluated (%d expressions)" % len(exprs))
+    model_shares = None
+    if vals is not None:
+        model_shares = bool(vlib.parse_coq_value(vals[-1])[0])
+        vals = vals[:-1]
+        exprs = exprs[:-1]
     mism = 0
     known_hits = {SIG_ALLCLOSE: 0, SIG_TRUNC: 0}
     for i, (case, exact, (nz, res, extra)) in enumerate(streams):
@@ -1020,6 +1377,14 @@ def run(ctx):
                 ires = [r if r[0] != "Val" else ("Val", Fraction(r[1]), Fraction(r[2]))
                         for r in res]
             model_ok = (mnz == nz and same_results(mres, ires))
+            if "shares" in extra and extra["shares"] != model_shares:
+                ctx.violation("corr:InterCoefficient", "shares-memory-with-inputs",
+                              "InterCoefficient(order=%d) keeps memory of the arrays it was "
+                              "built from (np.shares_memory(np_arrays, inputs) = %s, model: %s): "
+                              "later in-place edits of the caller's buffers change the "
+                              "coefficient" % (case["order"], extra["shares"], model_shares),
+                              {"kind": "inter", "case": jsonable(case), "index_path": nz,
+                               "shares": extra["shares"]})
             if model_ok and case.get("copy"):
                 for nm in ("pickle", "copy"):
                     cnz, cres = extra[nm]
@@ -1140,10 +1505,15 @@ def run(ctx):
     run_func_direct_oracle(ctx, rng, 100 if ctx.quick else 1000)
     ctx.log("function oracle done")
 
+    # --------------------------------------------------- construction isolation
+    idist = run_isolation(ctx, rng, 150 if ctx.quick else 1500)
+    ctx.log("construction-isolation oracle done: %d failing cases" % idist["failures"])
+
     # ------------------------------------------------------- expression strings
     sdist = run_string_checks(ctx, rng, 120 if ctx.quick else 1500)
 
-    ctx.cov["input_distribution"] = {"inter": dist, "function": fdist, "string": sdist}
+    ctx.cov["input_distribution"] = {"inter": dist, "function": fdist, "string": sdist,
+                                     "isolation": idist}
     ctx.sample({"inter_case": jsonable({k: v for k, v in fcases[-1].items() if k != "ts"}),
                 "n_queries": len(fcases[-1]["ts"]),
                 "impl_first_results": repr(streams[len(fcases) - 1][2][1][:3])})
@@ -1272,6 +1642,15 @@ def replay(ctx, payload):
         if bad:
             ctx.violation(payload["site"], payload["signature"], bad[0][1],
                           {"kind": "inter", "case": d["case"], "index_path": nz})
+        return
+    if d.get("kind") == "isolation":
+        case = d["case"]
+        if "vform" in case:
+            run_iso_array(ctx, case)
+        elif "code" in case:
+            run_iso_args(ctx, case)
+        else:
+            run_iso_ppoly(ctx, random.Random(0))
         return
     if d.get("kind") == "func":
         tr = run_impl_func(d["case"])
